@@ -3,7 +3,7 @@
    mono_int d = integral of x^d over [-1,1]. *)
 From Coq Require Import Reals Arith.
 From Coquelicot Require Import Coquelicot.
-From P Require Import C01_gen C01_model C01_proofs_nc C01_proofs_assemble.
+From P Require Import C01_gen C01_model C01_proofs_nc.
 Open Scope R_scope.
 
 Theorem mono_int_is_integral : forall d, is_RInt (fun x => x ^ d) (-1) 1 (mono_int d).
